@@ -7,7 +7,7 @@ import z3
 
 from .types import (T, INT, BOOL, BYTES, STR, NONE, ANY, OPT, LIST, SET, MAP, TUPLE, CLS, Outside, to_sort, opt_sort,
                     tuple_sort, BYTES_SORT)
-from .engine import (RangeV, IterV, V, Ref, HeapObj, ExcVal, Raised, Closure, BoundMethod, BuiltinMethod, LocalClass, Frame, State,
+from .engine import (EmptyMap, EMPTY_MAP, RangeV, IterV, V, Ref, HeapObj, ExcVal, Raised, Closure, BoundMethod, BuiltinMethod, LocalClass, Frame, State,
                      is_concrete)
 from .interp import Ctl, _is_true, _is_false
 from .calls import Calls
@@ -138,12 +138,12 @@ class Stmts(Calls):
         yield st, None
 
     def st_FunctionDef(self, node, st):
-        st.frame.vars[node.name] = Closure(node, len(st.stack) - 1, st.frame.globs,
+        st.frame.vars[node.name] = Closure(node, self.capture(st), st.frame.globs,
                                            st.frame.qualname + '.<locals>.' + node.name)
         yield st, None
 
     def st_ClassDef(self, node, st):
-        st.frame.vars[node.name] = LocalClass(node, len(st.stack) - 1, st.frame.globs)
+        st.frame.vars[node.name] = LocalClass(node, self.capture(st), st.frame.globs)
         yield st, None
 
     def st_If(self, node, st):
@@ -180,6 +180,15 @@ class Stmts(Calls):
             if isinstance(v, Raised):
                 yield s, Ctl('raise', v.exc)
             else:
+                if isinstance(v, EmptyMap):
+                    # the annotation gives the empty map its type
+                    from .types import from_annotation
+                    try:
+                        ty = from_annotation(ast.unparse(node.annotation), self.reg, s.frame.globs)
+                        if ty.kind == 'map':
+                            v = V(self.term(v, ty, s), ty)
+                    except Outside:
+                        pass
                 yield from self.assign(node.target, v, s)
 
     def st_AugAssign(self, node, st):
